@@ -191,8 +191,9 @@ def run(prop, seed, budget, ctx):
                     # omission rule on objects at the root: a key is absent exactly when None / default and the option asks for it
                     if t.kind == "typeddict" and isinstance(s, dict) and isinstance(v, dict):
                         # a TypedDict emits its present keys (declared ones first, then extras under additional_properties), minus None keys under exclude_none
-                        declared = [f["alias"] for f in t.fields]
-                        w = [k for k in declared if k in v and not (v[k] is None and so["exclude_none"] and declares_none(next(f for f in t.fields if f["alias"] == k)["ty"]))]
+                        # (the value is keyed by the names, the output by the aliases)
+                        declared = [f["name"] for f in t.fields]
+                        w = [f["alias"] for f in t.fields if f["name"] in v and not (v[f["name"]] is None and so["exclude_none"] and declares_none(f["ty"]))]
                         w += [k for k in v if k not in declared] if so["ap"] else []
                         if sorted(s) != sorted(w): why.append("emitted-keys-differ-from-the-omission-rule"); case["expected_keys"] = w
                     if t.kind == "dataclass" and isinstance(s, dict) and "aggregate" not in t.features():
